@@ -1353,7 +1353,12 @@ func toAbsoluteName(name, origin string) (absolute string, ok bool) {
 	if origin == "" {
 		return "", false
 	}
-	return appendOrigin(name, origin), true
+	absolute = appendOrigin(name, origin)
+	// the relative name and the origin may each be valid and still add up to more than a domain name can hold
+	if _, ok := IsDomainName(absolute); !ok {
+		return "", false
+	}
+	return absolute, true
 }
 
 func appendOrigin(name, origin string) string {
